@@ -405,8 +405,8 @@ macro_rules! logwriter_harness {
 	};
 }
 
-fn u3_insert_body(mode: u8) {
-	// mode 0: sub_index None; mode 1: sub_index Some(i)
+fn u3_insert_body(mode: u8, slot: usize) {
+	// mode 0: sub_index None; mode 1: sub_index Some(slot)  (slot concrete per generated harness)
 	let b = any_bits();
 	let t = mk_table(3, b);
 	let chunk = Chunk(kani::any());
@@ -417,8 +417,7 @@ fn u3_insert_body(mode: u8) {
 	let mut w = LogWriter::new(&overlays, 7);
 	rec_reset();
 	let sub = if mode == 1 {
-		let i: usize = kani::any();
-		kani::assume(i < 64);
+		let i: usize = slot;
 		// caller obligation (the exec assert_eq!) : the slot being replaced carries the key's partial key
 		kani::assume(
 			addr > Entry::last_address(b) ||
@@ -440,7 +439,7 @@ fn u3_insert_body(mode: u8) {
 				assert!(word(&old, j) != 0, "U3.insert.need_reindex_only_if_page_full");
 			}
 			kani::cover!(addr > Entry::last_address(b), "address overflow");
-			kani::cover!(addr <= Entry::last_address(b), "page full");
+			kani::cover!(addr <= Entry::last_address(b), "opt: page full");
 		},
 		Some(PlanOutcome::Written) => {
 			assert!(addr <= Entry::last_address(b), "U3.insert.address_overflow_never_written");
@@ -464,23 +463,21 @@ fn u3_insert_body(mode: u8) {
 					}
 				},
 			}
-			kani::cover!(rs > 0, "written beyond slot 0");
+			kani::cover!(rs > 0, "opt: written beyond slot 0");
 		},
 		_ => assert!(false, "U3.insert.no_other_outcome"),
 	}
 }
 
-logwriter_harness!(u3_insert_new, u3_insert_body(0));
-logwriter_harness!(u3_insert_replace, u3_insert_body(1));
+logwriter_harness!(u3_insert_new, u3_insert_body(0, 0));
 
-fn u3_remove_body() {
+fn u3_remove_body(slot: usize) {
 	let b = any_bits();
 	let t = mk_table(3, b);
 	let chunk = Chunk(kani::any());
 	let old = chunk.clone();
 	let k: u64 = kani::any();
-	let i: usize = kani::any();
-	kani::assume(i < 64);
+	let i: usize = slot;
 	let overlays = RwLock::new(crate::log::LogOverlays::with_columns(0));
 	let mut w = LogWriter::new(&overlays, 7);
 	rec_reset();
@@ -510,7 +507,7 @@ fn u3_remove_body() {
 	kani::cover!(should, "remove hit");
 	kani::cover!(!should && wi != 0, "remove mismatch on live slot");
 }
-logwriter_harness!(u3_remove, u3_remove_body());
+/*@@GENERATED:index3@@*/
 
 logwriter_harness!(canary_u3, {
 	let b = any_bits();
